@@ -61,8 +61,9 @@ def sensitivity(args):
                 rp = os.path.join(scratch_root, "rp-" + name)
                 env = {"VERIF_REPO": wt, "VERIF_EVIDENCE_DIR": ev, "VERIF_REPLAY_DIR": rp}
                 for chk in meta["detect_with"]:
-                    cmd = [os.path.join(VERIF, "check"), chk, "--tier", "quick", "--seed", str(args.seed)]
-                    rc, out = _run(cmd, env=env, cwd=VERIF, timeout=3600)
+                    extra = meta.get("check_args") or ["--tier", "quick"]
+                    cmd = [os.path.join(VERIF, "check"), chk, *extra, "--seed", str(args.seed)]
+                    rc, out = _run(cmd, env={**env, **meta.get("env", {})}, cwd=VERIF, timeout=7200)
                     lines = [ln for ln in out.splitlines() if ln.startswith("VIOLATION")]
                     head = next((ln for ln in out.splitlines() if ln.startswith("[")), "")
                     res = {"exit": rc, "summary": head, "violation_lines": len(lines)}
